@@ -483,6 +483,14 @@ def mon_c15(spec, run):
                 if c["op"][0] == "connected" and c["res"] is not False and c["ret"] is not None:
                     bad.append(("still-connected", "the connection still reports itself as connected after the disconnect callback"))
                     break
+    # once the reader has seen the failure at most the one command the sender had already taken from its queue can still be written
+    # (virtual time stands still while the reader is runnable, so without injected stalls nothing else can become due in between)
+    if rf[0]["k"] == "read_fault" and not spec.get("stall"):
+        before = {text_of(c["op"]) for c in cs if text_of(c["op"]) is not None and c["ret"] is not None and c["ret"] < f}      # submitted, entirely before the failure was read
+        late = [e for e in tr if e["k"] == "write" and e["seq"] > f and bytes.fromhex(e["data"])[:-2].decode("utf-8", "replace") in before]
+        if len(late) > 1:
+            bad.append(("queued-written", f"{len(late)} commands were written after the reader had seen the transport fail (queued commands must be discarded): "
+                                          f"{[bytes.fromhex(e['data'])[:40] for e in late[:4]]}"))
     rx = [e for e in tr if e["k"] == "thread_exit" and e["th"] == "R"]
     if not rx:
         bad.append(("reader-alive", "the reader thread never terminated after the transport failed"))
